@@ -685,7 +685,7 @@ def run(tier: str, seed: int) -> Result:
     per_cfg = []
     cfgs = [(o, l) for o, l in CONFIGS]
     for i, (ops, late) in enumerate(cfgs):
-        depth, bound, pairs = (3, 1, "matching") if q else (4, 2, "matching")
+        depth, bound, pairs = (3, 1, "matching") if q else (4, 1, "all")
         left = max(5.0, (t_end - time.monotonic()) / (len(cfgs) - i))
         st = explore_parallel(factory, (ops, late, pairs), depth=depth, bound=bound, budget_s=left, split_depth=1)
         per_cfg.append({"operations": list(ops), "late_calls": list(late), "depth": depth, "deviation_bound": bound, "executions": st.executions,
